@@ -76,25 +76,8 @@ func histTest(t *testing.T, rec *vkit.Recorder, test string, bias Bias, judge Ju
 		for k := 1; k < rapid.IntRange(2, 3).Draw(t, "cycles"); k++ {
 			scs = append(scs, genNext(t, bias, scs[k-1], fmt.Sprintf("c%d", k)))
 		}
-		for e := 0; e < Execs(); e++ {
-			run := make([]*Scenario, len(scs))
-			for i := range scs {
-				run[i] = cloneScenario(scs[i])
-				run[i].RandSeed += int64(e)
-			}
-			trs := ExecSeq(run)
-			for k := range run {
-				vd := judge(run[k], trs[k])
-				cls := append([]string{fmt.Sprintf("history/cycle-%d", k+1)}, vd.Classes...)
-				rec.Eval(vd.NonTrivial && k > 0, vkit.Digest("hist", ScenarioDigest(scs[0]), ScenarioDigest(scs[k]), k), cls...)
-				if bad := rec.Filter(vd.Violations); len(bad) > 0 {
-					for i := range bad {
-						bad[i].Msg = fmt.Sprintf("cycle %d of a %d-cycle history: %s", k+1, len(run), bad[i].Msg)
-					}
-					p := vkit.SaveViolation(rec.Prop, test, map[string]interface{}{"history": run, "failingCycle": k}, bad, trs[k])
-					t.Fatalf("%s (replay %s)", bad[0], p)
-				}
-			}
+		if msg := CheckHist(rec, test, scs, judge, Execs()); msg != "" {
+			t.Fatalf("%s", msg)
 		}
 	})
 }
